@@ -418,3 +418,28 @@ MUTANTS += [
          old="                order = np.argsort(np.concatenate([np.flatnonzero(is_forward), np.flatnonzero(~is_forward)]), kind='stable')",
          new="                order = np.argsort(np.argsort(~is_forward), kind='stable')"),
 ]
+
+IFA = "bionumpy/io/indexed_fasta.py"
+
+MUTANTS += [
+    # ---- C17 ----------------------------------------------------------------------------
+    dict(prop="C17", name="contig-lengths-line-width", file=IFA,
+         old='        return {name: values["rlen"] for name, values in self._index.items()}', new='        return {name: values["lenc"] for name, values in self._index.items()}'),
+    dict(prop="C17", name="row-arithmetic-uses-lenb", file=IFA,
+         old="            start_row = interval.start//lenc\n", new="            start_row = interval.start//lenb\n"),
+    dict(prop="C17", name="fast-path-stop-row", file=IFA,
+         old="        stop_rows = intervals.stop // indices.characters_per_line", new="        stop_rows = (intervals.stop - 1) // indices.characters_per_line"),
+    dict(prop="C17", name="deleted-newline-indices-shifted", file=IFA,
+         old="            tmp = np.delete(tmp, [lenb*(j+1)-1-start_mod\n", new="            tmp = np.delete(tmp, [lenb*(j+1)-1-(start_mod if start_mod < 5 else 0)\n"),
+    dict(prop="C17", name="index-offsets-not-accumulated", file=IFA,
+         old="                 idx.start+offset,", new="                 idx.start+offsets[0],"),
+    dict(prop="C17", name="whole-contig-row-count", file=IFA,
+         old="        n_rows = (rlen + lenc - 1) // lenc", new="        n_rows = rlen // lenc + 1"),
+    dict(prop="C17", name="fast-path-uses-file-order (seeded C17-a)", file=IFA,
+         old="        indices: FastaIdx = index_table[chromosome_i]", new="        indices: FastaIdx = self._index_table[chromosome_i]"),
+    dict(prop="C17", name="fai-length-of-last-record-line-count", file=MLB,
+         old="        line_lens = entry_ends[new_entries+1]-seq_starts", new="        line_lens = entry_ends[new_entries+1]-seq_starts + (chars_per_line > 100)"),
+    dict(prop="C17", name="fai-seq-lens-from-first-line", file=MLB,
+         old="        seq_lens = ends[line_offsets[1:]-1]-starts[line_offsets[:-1]]\n        sequences = RaggedArray(sequence_lines.ravel(), seq_lens)\n\n        seq_starts",
+         new="        seq_lens = ends[line_offsets[1:]-1]-starts[line_offsets[:-1]]\n        seq_lens = np.where(n_lines_per_entry > 6, seq_lens - 1, seq_lens)\n        sequences = RaggedArray(sequence_lines.ravel(), seq_lens)\n\n        seq_starts"),
+]
